@@ -120,11 +120,13 @@ static int send_message(const struct peer *p, char *rendered, size_t len)
 	return br->writev(br->this_ptr, iov, ARRAY_SIZE(iov));
 }
 
-void init_socket_peer(struct socket_peer *p, struct buffered_reader *reader, bool is_local_connection)
+int init_socket_peer(struct socket_peer *p, struct buffered_reader *reader, bool is_local_connection)
 {
 	struct buffered_socket *bs = (struct buffered_socket *)reader->this_ptr;
 
-	init_peer(&p->peer, is_local_connection, bs->ev.loop);
+	if (unlikely(init_peer(&p->peer, is_local_connection, bs->ev.loop) < 0)) {
+		return -1;
+	}
 	p->peer.send_message = send_message;
 	p->peer.close = close_jet_peer;
 
@@ -137,6 +139,7 @@ void init_socket_peer(struct socket_peer *p, struct buffered_reader *reader, boo
 	br->writev = reader->writev;
 
 	br->read_exactly(br->this_ptr, 4, read_msg_length, p);
+	return 0;
 }
 
 struct socket_peer *alloc_jet_peer(void)
